@@ -248,3 +248,51 @@ def strip_events(rep):
     if "died" in r:
         r.pop("stderr", None)
     return r
+
+
+def stages_run(name, defs, tier):
+    """Compile stages: Attempt.tla on the graph as it is after every pass of Graph::new (raw, early,
+    late, prune, final), captured by the hook.  Every pass must preserve the lexing function, so the
+    invariants must hold at every stage; a stage that breaks them localises a fault to the pass before."""
+    defs_path, metas, capdir = capture(defs, name + "-stages", stages=True)
+    key = sha(open(defs_path).read(), harness_hash())[:16]
+    cache = os.path.join(workdir(), "stages-%s-%s.json" % (name, key))
+    if os.path.exists(cache):
+        return json.load(open(cache))
+    out_path = os.path.join(capdir, "defs_stages.ndjson")
+    index = []
+    with open(out_path, "w") as f:
+        for line, m in zip(open(defs_path), metas):
+            td = json.loads(line)
+            if not (td["accepted"] and td["hasGraph"] and td["refsOk"]):
+                continue
+            for st in td["stages"]:
+                if st["stage"] == "final" or st["n"] == 0:
+                    continue
+                d2 = dict(td)
+                d2["g"] = {k: st[k] for k in ("root", "n", "early", "accept", "eoi", "edge")}
+                d2["stages"] = []
+                index.append((m["id"], st["stage"]))
+                d2["idx"] = len(index)
+                f.write(json.dumps(d2) + "\n")
+    res = run_tlc("Attempt.tla", "Attempt.cfg", {"DEFS": out_path, "HALT": "0", "EMIT": "0"}, workers=8, metaname="stages-" + name,
+                  timeout=3000 if tier == "quick" else 10000)
+    viols = []
+    for tag, sub, rec in tlc_records(res["out"]):
+        if tag == "VIOL" and sub not in ("TPartPrompt", "TPartSafe", "TRoot"):
+            did, stage = index[rec["d"] - 1]
+            w = rec["w"]
+            if stage != "prune":
+                # before the prune pass dead-end paths are still in the graph: an attempt may read on
+                # although nothing can match any more (T-exact) and error ends differ; matches do not
+                if sub in ("TExact", "TMunchAbs"):
+                    continue
+                if sub == "TMunchEoi":
+                    w = [x for x in w if x != "abs"]
+                    if not w:
+                        continue
+            viols.append({"def": did, "stage": stage, "tag": sub, "path": rec["path"], "w": w})
+    out = {"tlc": {k: res[k] for k in ("states", "distinct", "depth", "wall")}, "graphs": len(index), "viol": viols[:500], "n_viol": len(viols)}
+    with open(cache, "w") as f:
+        json.dump(out, f)
+    return out
